@@ -68,10 +68,12 @@ def cases(tier, seed):
                 same = st["E"][off[b] + i] == st["E"][off[b] + j]
                 for herm in (True, False):
                     for rep in ("dense", "sympy"):
-                        if same and i < j:
-                            out.append(dict(st, hermitian=herm, cls="mask-degenerate", pos=[b, i, j], repr=rep, total=2))
-                        if not same and herm:
-                            out.append(dict(st, cls="mask-asymmetric", pos=[b, i, j], repr=rep, total=2))
+                        # the offending mask alone, or followed / preceded by valid masks of the other blocks
+                        for others in ("none", "after", "before") if len(st["sizes"]) > 1 else ("none",):
+                            if same and i < j:
+                                out.append(dict(st, hermitian=herm, cls="mask-degenerate", pos=[b, i, j], repr=rep, total=2, others=others))
+                            if not same and herm:
+                                out.append(dict(st, cls="mask-asymmetric", pos=[b, i, j], repr=rep, total=2, others=others))
     # (e) defective eigenvectors, (f) (R,L) in Hermitian mode, (h) both subspace arguments, (i) option conflicts
     for sizes in ((1, 1), (2, 1), (1, 2), (1, 1, 1)):
         for defect in ("scaled", "overlap", "nonorthogonal", "biorth-broken", "RL-in-hermitian", "both-args", "fd-custom-solver", "fd-implicit", "ndarray-fd-multiblock",
@@ -82,6 +84,10 @@ def cases(tier, seed):
     for order in (0, 1, 2, 3):
         for nsym in (1, 2):
             out.append(dict(cls="symbolic-nonhermitian", order=order, nsym=nsym, total=3))
+            # the same with second-quantised operators in H_0 (the offending term itself is a c-number)
+            if order >= 1:
+                for ops in ("boson-h0", "boson-h0-and-h1"):
+                    out.append(dict(cls="symbolic-nonhermitian", order=order, nsym=nsym, total=3, ops=ops))
     # (k) threshold probes
     for rel in ("1e-7", "1e-3", "0"):
         for rep in ("dense", "csr"):
@@ -154,7 +160,7 @@ def run_case(case):
 
 
 def describe_short(case):
-    keys = ("sizes", "E", "fd", "pos", "repr", "hermitian", "defect", "order", "nsym", "rel", "big")
+    keys = ("sizes", "E", "fd", "pos", "repr", "hermitian", "defect", "order", "nsym", "rel", "big", "ops", "others")
     return {k: case[k] for k in keys if k in case}
 
 
@@ -283,6 +289,12 @@ def _mask_case(case, make_mask):
     s = case["sizes"][b]
     m = make_mask(s, i, j)
     cfg["mask"] = {str(b): m}
+    # valid (all-False, symmetric) masks for the other blocks, placed after / before the offending entry
+    rest = {str(o): [[0] * so for _ in range(so)] for o, so in enumerate(case["sizes"]) if o != b}
+    if case.get("others") == "after":
+        cfg["mask"] = {str(b): m, **rest}
+    elif case.get("others") == "before":
+        cfg["mask"] = {**rest, str(b): m}
     cfg["fd"] = None
     values = lattice.gen_values(cfg, case["seed"])
     Hd, kwargs = lattice.library_input(cfg, values)
@@ -459,6 +471,16 @@ def run_symbolic_nonhermitian(case):
         bad = sympy.zeros(3, 3)
         bad[0, 0] = sympy.I  # non-real diagonal at order zero keeps H_0 block-diagonal but not Hermitian
     H = H + bad * x**m
+    if case.get("ops"):
+        from sympy.physics.quantum import Dagger
+        from sympy.physics.quantum.boson import BosonOp
+
+        a = BosonOp("a")
+        w = sympy.Symbol("omega", positive=True)
+        H = H + w * Dagger(a) * a * sympy.eye(3)
+        if case["ops"] == "boson-h0-and-h1":  # a Hermitian operator-valued term at an order other than m
+            other = 1 if m != 1 else 2
+            H = H + x**other * sympy.Matrix([[0, a, 0], [Dagger(a), 0, 0], [0, 0, 0]])
     V = []
     try:
         with warnings.catch_warnings():
